@@ -529,6 +529,17 @@ func (cs *Contracts) loadFile(path string) error {
 					return fail(fmt.Errorf("bad hint"))
 				}
 				h.Callee, body = g[0], g[1]
+			} else if h.Where == "at" {
+				// hint at "source line text" E: checked, then assumed, before the first instruction of that statement line (ext_linehint.go)
+				b := strings.TrimSpace(body)
+				q2 := -1
+				if strings.HasPrefix(b, "\"") {
+					q2 = strings.Index(b[1:], "\" ")
+				}
+				if q2 < 0 {
+					return fail(fmt.Errorf(`hint at "source line" E`))
+				}
+				h.Callee, body = strings.TrimSpace(b[1:q2+1]), b[q2+3:]
 			} else if h.Where != "return" {
 				return fail(fmt.Errorf("hint needs `return` or `after <callee>`"))
 			}
